@@ -87,6 +87,35 @@ def factor_sweep(H, chk, tier, universe, snippet, ask):
         ask(["c17.fkind", a, b], ("fkind", "factor", f"{a}->{b}", base_kind(f)))
         chk.count("factor:kind:" + base_kind(f))
 
+    # which base value a Unit object carries: bare symbols keep the table entry, parsed compound
+    # expressions and units built by arithmetic / copy are Python floats (`UnitShape`)
+    plain_by_dim = {}
+    for sym in sorted(kinds):
+        if kinds[sym] == "pyfloat" and lut[sym][2] == 0:
+            plain_by_dim.setdefault(str(lut[sym][1]), sym)
+    for sym in special + ["m", "s", "km"]:
+        try:
+            u = Unit(sym)
+            if u.base_offset != 0 or str(u) != sym:
+                continue
+            builds = [("s:" + sym, u), ("s:" + sym, u.copy())]  # a copy of a bare symbol keeps the table entry
+            if str(u.dimensions) != "(logarithmic)":
+                builds += [("other", o_) for o_ in (Unit(f"{sym}*s"), Unit(f"1/{sym}") ** -1, u * Unit("s") / Unit("s"), (u * u) ** 0.5, Unit(f"{sym}**2"))]
+        except Exception:  # noqa: BLE001
+            continue
+        for tag, ub in builds:
+            ask(["c17.fshape", tag, "other"], ("fkind", "unit-shape", f"{sym}:{tag}:{ub}", base_kind(ub.base_value / 1.0)))
+            chk.count("factor:shape:" + tag.split(":")[0])
+            p_ = plain_by_dim.get(str(ub.dimensions))
+            if p_ is not None and ub.dimensions == Unit(p_).dimensions:
+                try:
+                    f, _o = ub.get_conversion_factor(Unit(p_), np.dtype("f8"))
+                    f2, _o = Unit(p_).get_conversion_factor(ub, np.dtype("f8"))
+                except Exception:  # noqa: BLE001
+                    continue
+                ask(["c17.fshape", tag, "s:" + p_], ("fkind", "unit-shape-factor", f"{ub}->{p_}", base_kind(f)))
+                ask(["c17.fshape", "s:" + p_, tag], ("fkind", "unit-shape-factor", f"{p_}->{ub}", base_kind(f2)))
+
     scope = [d for d in universe if d.kind != "b"]
     narrow = [d for d in scope if (d.kind, d.itemsize) in (("f", 2), ("f", 4), ("c", 8), ("i", 2), ("i", 4), ("u", 1), ("f", 8))]
 
